@@ -917,6 +917,11 @@ def run_kiss_predict(case, ctx: Ctx):
         # K_UU - K_UU W^T (K~+S)^-1 W K_UU): the jitter the dependency's psd_safe_cholesky adds to factor them (1e-8, escalating
         # to 1e-6) is part of the algorithm.  Measured on the unchanged tree: <= 1e-7; every seeded defect is >= 1e-3.
         rtol, atol = max(rtol, 1e-5), max(atol, 1e-5)
+    if fantasy and s["max_chol"] == 0:
+        # WISKI above max_cholesky_size: the fantasy caches come from CG solves against those numerically singular m x m grid
+        # matrices, which the calibration of the n x n system above says nothing about (thorough tier, unchanged tree: up to 2.2e-4
+        # relative on the mean): the class of the Lanczos-backed caches, 2e-3
+        rtol, atol = max(rtol, 2e-3), max(atol, 2e-3)
     with ctx.observing("predict"):
         model, lik, covar, gik = _kiss_model(case)
         model.eval()
